@@ -495,6 +495,16 @@ def runBlocking (line : String) : String :=
           s!"{f1},{f2}\tseq,{pathName (blockingPath api ctx)},sound={sound}"
         | none => "blocked\tseq"
     | _, _ => "bad-op"
+  | some (.list [.atom "bldrop", cap, rounds]) =>
+    -- (cap + 1) · rounds plain sends against a receiver that never runs: what is still alive is what is pending
+    -- (C09.capacity_bound, truncation_discards_exactly_capacity)
+    match cap.nat?, rounds.nat? with
+    | some cap, some rounds =>
+      if cap = 0 ∨ cap > 64 ∨ rounds = 0 ∨ rounds > 20 then "bad-op"
+      else
+        let s := (List.range ((cap + 1) * rounds)).foldl (fun s i => send (Cfg.real cap) s i) init
+        s!"live={s.pending.length}\tdrop,trunc={min s.mTruncated 4}"
+    | _, _ => "bad-op"
   | some (.list [.atom "blslow", api, d, timeout, n, cap]) =>
     -- a processor whose single attempt takes D behind `tokio::spawn`, a flush requested meanwhile: the duration is
     -- not an input of the model (no label carries one) — `true`, with every item through its final attempt both when
